@@ -97,16 +97,18 @@ def build_harness(variant="default", bins=None):
     if feats:
         cmd += ["--features", ",".join(feats)]
     t0 = time.time()
-    # one cargo at a time in this target dir: cargo takes its own lock, we only retry a stale lock file
-    p = run(cmd, cwd=HARNESS, timeout=3600, check=False)
+    # every feature variant has its own target directory, so concurrent checks never swap binaries under each other
+    tdir = os.path.join(HARNESS, "target" if variant == "default" else "target-" + variant)
+    benv = {"CARGO_TARGET_DIR": tdir}
+    p = run(cmd, cwd=HARNESS, env=benv, timeout=3600, check=False)
     if p.returncode != 0 and "Cargo.lock" in (p.stdout or ""):
         shutil.copy(lock_src, lock_dst)
-        p = run(cmd, cwd=HARNESS, timeout=3600, check=False)
+        p = run(cmd, cwd=HARNESS, env=benv, timeout=3600, check=False)
     if p.returncode != 0:
         raise ToolError("harness build failed (%s):\n%s" % (variant, p.stdout[-6000:]))
     outdir = os.path.join(WORK, "bin", variant)
     os.makedirs(outdir, exist_ok=True)
-    rel = os.path.join(HARNESS, "target", "release")
+    rel = os.path.join(tdir, "release")
     res = {}
     names = bins or [n for n in os.listdir(rel)
                      if os.path.isfile(os.path.join(rel, n)) and os.access(os.path.join(rel, n), os.X_OK) and "." not in n]
